@@ -1,4 +1,5 @@
 (* Observable results and their comparison (used by the correspondence check). *)
+From Coq Require Import Qabs.
 From DA Require Import Prelude NDArray Array.
 Open Scope nat_scope.
 
@@ -64,3 +65,15 @@ Definition Arr (axs : list axis) (s : list nat) (k : kind) (d : list cell) (m : 
   {| axes := axs; vals := {| sh := s; dat := d; kd := k |}; attrs := m |}.
 Definition N_ (n : Z) : cell := CNum (qz n 1).
 Definition L_ (n : Z) : label := LNum (qz n 1).
+
+(* comparison with a relative tolerance for results of inexact floating-point arithmetic (mean,
+   var, std, interpolation): |model - implementation| <= 1e-9 * (1 + |model|) *)
+Definition cell_close (a b : cell) : bool :=
+  match a, b with
+  | CNum p, CNum q => Qle_bool (Qabs (p - q)) ((1 # 1000000000) * (1 + Qabs p))
+  | _, _ => cell_eqb a b
+  end.
+Definition nd_close (x y : nd) : bool :=
+  list_eqb Nat.eqb (sh x) (sh y) && kind_eqb (kd x) (kd y) && list_eqb cell_close (dat x) (dat y).
+Definition darr_close (x y : darr) : bool :=
+  list_eqb axis_eqb (axes x) (axes y) && nd_close (vals x) (vals y) && meta_eqb (attrs x) (attrs y).
